@@ -12,20 +12,21 @@ import (
 	"time"
 
 	"github.com/nsqio/nsq/internal/verif"
+	"github.com/nsqio/nsq/nsqd"
 	"github.com/nsqio/nsq/verifharness/hlib"
 )
 
 type RunResult struct {
-	Scenario     string   `json:"scenario"`
-	Events       int      `json:"events"`
-	Published    int      `json:"published"`
-	Acked        int      `json:"acked"`
-	Fails        []string `json:"fails"`
-	Inconclusive string   `json:"inconclusive,omitempty"`
-	Snapshots    int      `json:"snapshots"`
-	Trace        string   `json:"trace"`
-	TimingChecks int      `json:"timing_checks"`
-	WorstLateMs  int64    `json:"worst_late_ms"`
+	Scenario     string         `json:"scenario"`
+	Events       int            `json:"events"`
+	Published    int            `json:"published"`
+	Acked        int            `json:"acked"`
+	Fails        []string       `json:"fails"`
+	Inconclusive string         `json:"inconclusive,omitempty"`
+	Snapshots    int            `json:"snapshots"`
+	Trace        string         `json:"trace"`
+	TimingChecks int            `json:"timing_checks"`
+	WorstLateMs  int64          `json:"worst_late_ms"`
 	Shapes       map[string]int `json:"shapes"`
 }
 
@@ -58,12 +59,54 @@ func runScenario(sc Scenario, dir string) ([]verif.Event, *RunResult) {
 	defer rec.Uninstall()
 	hlib.Emit("Reset", "scenario", sc.String(), "now", time.Now().UnixNano())
 	finish := func() []verif.Event { rec.Uninstall(); return rec.Take() }
-	nd, err := startNode(dir, r.nodeOpts)
+	var lkd *lookupdInst
+	if sc.Lookupd != 0 {
+		li, err := startLookupd()
+		if err != nil {
+			res.Inconclusive = "start nsqlookupd: " + err.Error()
+			return nil, res
+		}
+		lkd = li
+		defer func() {
+			if lkd != nil {
+				lkd.l.Exit()
+			}
+		}()
+	}
+	nd, err := startNode(dir, func(o *nsqd.Options) {
+		r.nodeOpts(o)
+		if lkd != nil {
+			o.NSQLookupdTCPAddresses = []string{lkd.tcp}
+		}
+	})
 	if err != nil {
 		res.Inconclusive = "start nsqd: " + err.Error()
 		return nil, res
 	}
 	r.nd = nd
+	if lkd != nil {
+		// wait until nsqd has identified itself to the nsqlookupd (it then knows where to ask for a topic's channels)
+		ok := false
+		for i := 0; i < 500 && !ok; i++ {
+			var nodes struct {
+				Producers []map[string]interface{} `json:"producers"`
+			}
+			if st, err := httpJSON("http://"+lkd.http+"/nodes", &nodes); err == nil && st == 200 && len(nodes.Producers) > 0 {
+				ok = true
+			} else {
+				time.Sleep(10 * time.Millisecond)
+			}
+		}
+		if !ok {
+			res.Inconclusive = "nsqd did not connect to nsqlookupd"
+			nd.stop(30 * time.Second)
+			return nil, res
+		}
+		if sc.Lookupd == 2 {
+			lkd.l.Exit() // from now on every query of nsqd to it fails
+			lkd = nil
+		}
+	}
 	stopped := false
 	defer func() {
 		if !stopped {
@@ -92,6 +135,10 @@ func runScenario(sc Scenario, dir string) ([]verif.Event, *RunResult) {
 			}
 		}
 	}
+	if sc.Lonely {
+		// a topic nobody has subscribed to yet: it accepts messages and must be accounted for like any other
+		r.httpAdmin("/topic/create?topic=lonely")
+	}
 	perPhase := sc.NMsg / sc.Phases
 	if perPhase < 1 {
 		perPhase = 1
@@ -99,6 +146,16 @@ func runScenario(sc Scenario, dir string) ([]verif.Event, *RunResult) {
 	for ph := 0; ph < sc.Phases; ph++ {
 		atomic.StoreInt32(&r.stop, 0)
 		r.startConsumerLoops()
+		if sc.Lonely {
+			for j := 0; j < 2; j++ {
+				key, body := r.makeBody(r.rng, 90+ph, j)
+				rec := r.record(key, "lonely", body, 0, "HTTP")
+				hlib.Emit("HPub", "key", key, "via", "HTTP", "t", "lonely", "defer", 0, "now", time.Now().UnixNano())
+				if st, _, err := nd.post("/pub?topic=lonely", body); err == nil && st == 200 {
+					r.markAcked([]*pubRec{rec})
+				}
+			}
+		}
 		if sc.Mode == "flow" || sc.Mode == "churn" {
 			r.wg.Add(1)
 			go r.admin(sc.Seed*31 + int64(ph))
@@ -142,6 +199,9 @@ func runScenario(sc Scenario, dir string) ([]verif.Event, *RunResult) {
 		r.rdyZeroStep()
 	}
 	// ---- drain
+	if sc.Lonely {
+		r.httpAdmin("/channel/create?topic=lonely&channel=late")
+	}
 	atomic.StoreInt32(&r.draining, 1)
 	for _, t := range sc.Topics {
 		r.httpAdmin("/topic/unpause?topic=" + t)
@@ -177,6 +237,7 @@ func runScenario(sc Scenario, dir string) ([]verif.Event, *RunResult) {
 	deadline := time.Now().Add(90 * time.Second)
 	empties := 0
 	var lastStats string
+	lastLeft, lastLeftChange, pollsSince := int64(-1), time.Now(), 0
 	for time.Now().Before(deadline) {
 		time.Sleep(40 * time.Millisecond)
 		st, _, err := nd.stats("")
@@ -192,6 +253,17 @@ func runScenario(sc Scenario, dir string) ([]verif.Event, *RunResult) {
 			}
 		}
 		lastStats = fmt.Sprintf("left=%d", left)
+		if left != lastLeft {
+			lastLeft, lastLeftChange, pollsSince = left, time.Now(), 0
+		}
+		pollsSince++
+		if left > 0 && time.Since(lastLeftChange) > 60*time.Second && pollsSince > 600 {
+			// the daemon answered several hundred /stats requests over a minute (so neither it nor this machine is
+			// merely slow), a prompt consumer with RDY 5 sits on every channel, every timeout in these scenarios is
+			// at most 15 s -- and the number of messages owed has not moved once
+			r.failf("[C01] STUCK: %s unchanged for 60s (%d /stats answers meanwhile) with a prompt ready consumer on every channel", lastStats, pollsSince)
+			break
+		}
 		if left == 0 {
 			empties++
 			if empties >= 3 {
@@ -328,6 +400,11 @@ func (r *Run) quiescentSnapshot(label string) bool {
 		if atomic.LoadInt64(&evCount) != c0 {
 			continue
 		}
+		var tnames []string
+		for _, ts := range s1.Topics {
+			tnames = append(tnames, ts.Name)
+		}
+		hlib.Emit("HStatsTopics", "topics", tnames)
 		for _, ts := range s1.Topics {
 			hlib.Emit("HStatsT", "t", ts.Name, "count", ts.MessageCount, "bytes", ts.MessageBytes, "depth", ts.Depth, "paused", ts.Paused)
 			for _, cs := range ts.Channels {
